@@ -97,6 +97,23 @@ func renameIDs(r *rec.Rand, s *Scenario) {
 // themselves directly assignable to [user] / [user:*]) — what fastPathRewrite evaluates with
 // fastPathUnion / fastPathIntersection / fastPathDifference.
 func (g *gen) w1(ops []string, withThis bool, depth int) *Rewrite {
+	rw := g.w1raw(ops, withThis, depth)
+	if depth == 0 {
+		// at most one direct assignment per relation (as the DSL allows): later ones become operands
+		seen := false
+		rw.Walk(func(x *Rewrite) {
+			if x.Op == "this" {
+				if seen {
+					x.Op, x.Rel = "computed", rec.Pick(g.r, ops)
+				}
+				seen = true
+			}
+		})
+	}
+	return rw
+}
+
+func (g *gen) w1raw(ops []string, withThis bool, depth int) *Rewrite {
 	r := g.r
 	if depth >= 2 || r.Chance(1+depth*2, 5) {
 		if withThis && r.Chance(1, 3) {
@@ -104,17 +121,17 @@ func (g *gen) w1(ops []string, withThis bool, depth int) *Rewrite {
 		}
 		return Comp(rec.Pick(r, ops))
 	}
-	a := g.w1(ops, withThis, depth+1)
-	b := g.w1(ops, withThis, depth+1)
+	a := g.w1raw(ops, withThis, depth+1)
+	b := g.w1raw(ops, withThis, depth+1)
 	switch x := r.Intn(10); {
 	case x < 4:
 		if r.Chance(1, 3) {
-			return Union(a, b, g.w1(ops, withThis, depth+1))
+			return Union(a, b, g.w1raw(ops, withThis, depth+1))
 		}
 		return Union(a, b)
 	case x < 7 && g.o.Inter:
 		if r.Chance(1, 4) {
-			return Inter(a, b, g.w1(ops, withThis, depth+1))
+			return Inter(a, b, g.w1raw(ops, withThis, depth+1))
 		}
 		return Inter(a, b)
 	case g.o.Exclusion:
@@ -353,6 +370,25 @@ func (e *Env) Eligibility() Eligibility {
 }
 
 var _ = typesystem.DirectRelationReference
+
+// DupThis: some relation's rewrite mentions the direct assignment (`this`) more than once — a
+// shape the model validator accepts (JSON API) although the DSL cannot express it.
+func (s *Scenario) DupThis() bool {
+	for _, td := range s.Types {
+		for _, rd := range td.Rels {
+			n := 0
+			rd.RW.Walk(func(x *Rewrite) {
+				if x.Op == "this" {
+					n++
+				}
+			})
+			if n > 1 {
+				return true
+			}
+		}
+	}
+	return false
+}
 
 // ---------------------------------------------------------------------------------------------
 // planners
